@@ -250,67 +250,123 @@ def rule_wcmatch_predicates(ctx: Ctx, rule: str) -> None:
     ctx.ob(rule, f'{WM}:WcMatch._valid_folder/table', ok, repo.loc(WM, vd.node),
            'recursive ∧ (¬exclude_check ∨ compare_directory(rel if DIRPATHNAME else name)) ∧ (show_hidden ∨ ¬hidden) ∧ on_validate_directory',
            f'{rows} rows agree' if ok else why, witness="WcMatch('.', '*', 'build', RECURSIVE) must not descend into build/")
+    from .common import api_table, tabulate_method
+    from ..symeval import focus, _tag
     cd = repo.func(WM, 'WcMatch.compare_directory')
-    body = [s for s in cd.node.body if isinstance(s, ast.Return)]
-    src = norm_src(body[0].value) if body else ''
-    okc = src in ('not self.folder_exclude_check.match(self._add_sep(directory) if self.dir_pathname else directory)',)
-    ctx.ob(rule, f'{WM}:WcMatch.compare_directory/shape', okc, repo.loc(WM, cd.node),
-           'not exclude.match(directory + sep if dir_pathname else directory)', src[:100],
+    _ev, cps = api_table(repo, WM, 'WcMatch.compare_directory')
+    bad = []
+    for p in cps:
+        focus(p)
+        dp = p.decisions.get('self.dir_pathname')
+        arg = f'{WM}:WcMatch._add_sep(directory)' if dp else 'directory'
+        m = p.decisions.get(f'self.folder_exclude_check.match({arg})')
+        from .common import as_bool
+        r = as_bool(p, p.ret)
+        if dp is None or (m is None and _tag(p.ret) != f'not(self.folder_exclude_check.match({arg}))') or (m is not None and r is not (not m)):
+            bad.append(f'dir_pathname={dp}: decides {sorted(k for k in p.decisions if k.startswith("self.folder_exclude_check"))} returns {_tag(p.ret)[:60]}')
+    ctx.ob(rule, f'{WM}:WcMatch.compare_directory/shape', not bad and len(cps) >= 2, repo.loc(WM, cd.node),
+           'not exclude.match(directory + sep if dir_pathname else directory)', f'{len(cps)} rows agree' if not bad else bad[0][:200],
            witness="DIRPATHNAME exclude 'a/b/' must match the directory a/b")
     cf = repo.func(WM, 'WcMatch.compare_file')
-    bodyf = [s for s in cf.node.body if isinstance(s, ast.Return)]
-    okf = bool(bodyf) and norm_src(bodyf[0].value) == 'self.file_check.match(filename)'
-    ctx.ob(rule, f'{WM}:WcMatch.compare_file/shape', okf, repo.loc(WM, cf.node), 'self.file_check.match(filename)',
-           norm_src(bodyf[0].value) if bodyf else 'none')
+    _ev, fps = api_table(repo, WM, 'WcMatch.compare_file')
+    okf = len(fps) >= 1 and all(_tag(p.ret) == 'self.file_check.match(filename)' or
+                                (p.decisions.get('self.file_check.match(filename)') is not None and p.ret is p.decisions.get('self.file_check.match(filename)')) for p in fps)
+    ctx.ob(rule, f'{WM}:WcMatch.compare_file/shape', okf, repo.loc(WM, cf.node), 'self.file_check.match(filename)', str([_tag(p.ret)[:60] for p in fps]))
     # empty patterns
     cp = repo.func(WM, 'WcMatch._compile')
-    src_all = norm_src(cp.node)
-    ok1 = "re.compile(b'^.*$' if isinstance(file_pattern, bytes) else '^.*$', re.DOTALL)" in src_all
-    ok2 = '_wcmatch.WcRegexp(())' in src_all
-    ctx.ob(rule, f'{WM}:WcMatch._compile/empty-file-pattern', ok1, repo.loc(WM, cp.node), 'match-everything regex with DOTALL', str(ok1),
-           witness="WcMatch('.', '') selects every file, including names with newlines")
-    ctx.ob(rule, f'{WM}:WcMatch._compile/empty-exclude-pattern', ok2, repo.loc(WM, cp.node), 'WcRegexp(()) (falsy, matches nothing)', str(ok2))
+    _ev, rows_ = tabulate_method(repo, WM, 'WcMatch._compile', {'file_check': Opaque('fc'), 'folder_exclude_check': Opaque('xc')},
+                                 [Opaque('file_pattern'), Opaque('folder_exclude_pattern')], inline=False)
+    bad1, bad2, bad3 = [], [], []
+    import re as _re
+    for p in rows_:
+        focus(p)
+        d = p.decisions
+        fc, xc = _tag(p.attrs.get('file_check')), _tag(p.attrs.get('folder_exclude_check'))
+        if d.get('fc is not None') is True:
+            if fc != 'fc':
+                bad3.append('an existing file_check is replaced')
+        elif d.get('file_pattern') is True:
+            if fc != f'{WM}:WcMatch._compile_wildcard(file_pattern, self.file_pathname)':
+                bad3.append(f'file_check = {fc[:70]}')
+        else:
+            isb = d.get('isinstance(file_pattern, bytes)')
+            want = "_wcmatch:WcRegexp((<re.compile(" + ("b'^.*$'" if isb else "'^.*$'") + ", re.DOTALL)>,))"
+            if isb is None or fc != want:
+                bad1.append(f'bytes={isb}: file_check = {fc[:80]}')
+        if d.get('xc is not None') is True:
+            if xc != 'xc':
+                bad3.append('an existing folder_exclude_check is replaced')
+        elif d.get('folder_exclude_pattern') is True:
+            if xc != f'{WM}:WcMatch._compile_wildcard(folder_exclude_pattern, self.dir_pathname)':
+                bad3.append(f'folder_exclude_check = {xc[:70]}')
+        elif xc != '_wcmatch:WcRegexp(())':
+            bad2.append(f'folder_exclude_check = {xc[:70]}')
+    ctx.ob(rule, f'{WM}:WcMatch._compile/empty-file-pattern', not bad1 and len(rows_) >= 9, repo.loc(WM, cp.node), "WcRegexp((re.compile('^.*$' | b'^.*$', re.DOTALL),)) by pattern type",
+           'as expected' if not bad1 else bad1[0], witness="WcMatch('.', '') selects every file, including names with newlines")
+    ctx.ob(rule, f'{WM}:WcMatch._compile/empty-exclude-pattern', not bad2, repo.loc(WM, cp.node), 'WcRegexp(()) (falsy, matches nothing)', 'as expected' if not bad2 else bad2[0])
+    ctx.ob(rule, f'{WM}:WcMatch._compile/given-patterns', not bad3, repo.loc(WM, cp.node),
+           'given patterns go through _compile_wildcard with their own pathname switch; existing matchers are kept', 'as expected' if not bad3 else bad3[0])
+
+
+def walk_rows(repo: Any) -> list:
+    from .common import api_table, cached
+
+    def build() -> list:
+        _ev, paths = api_table(repo, WM, 'WcMatch._walk', explore_handlers=True, max_paths=50000)
+        return paths
+    return cached(repo, 'c14:walk_rows', build)
 
 
 def rule_pruning(ctx: Ctx, rule: str) -> None:
-    ctx.text(rule, 'directories are pruned in place: dirs.remove(name) on the very list bound by the os.walk loop target while '
-                   'iterating a copy (dirs[:]); `dirs` is never rebound; os.walk(followlinks=self.follow_links)')
+    ctx.text(rule, 'WcMatch._walk (decision table with call / yield events, exception handlers explored): os.walk(self._root_dir, '
+                   'followlinks=self.follow_links) top-down; a directory name is removed from the very list os.walk handed out, while a '
+                   'copy of that list is being iterated, exactly when _valid_folder(base, name) is false or the check raised')
+    from ..symeval import focus, _tag
     repo = ctx.repo
     wk = repo.func(WM, 'WcMatch._walk')
-    walks = [n for n in walk_no_nested(wk.node) if isinstance(n, ast.For) and isinstance(n.iter, ast.Call) and norm_src(n.iter.func) == 'os.walk']
-    if len(walks) != 1:
-        raise AnalysisError('_walk: os.walk loop not found')
-    w = walks[0]
-    tgt = [norm_src(e) for e in w.target.elts] if isinstance(w.target, ast.Tuple) else []
-    dirs = tgt[1] if len(tgt) == 3 else None
-    fl = next((norm_src(k.value) for k in w.iter.keywords if k.arg == 'followlinks'), None)
-    ctx.ob(rule, f'{WM}:WcMatch._walk/followlinks', fl == 'self.follow_links', repo.loc(WM, w), 'os.walk(…, followlinks=self.follow_links)',
-           f'followlinks={fl}', witness='WcMatch without SYMLINKS must terminate on a symlink cycle')
-    top = norm_src(w.iter.args[0]) if w.iter.args else None
-    ctx.ob(rule, f'{WM}:WcMatch._walk/topdown-root', top == 'self._root_dir' and not any(k.arg == 'topdown' for k in w.iter.keywords),
-           repo.loc(WM, w), 'os.walk(self._root_dir) top-down (pruning needs top-down)', norm_src(w.iter)[:80])
-    removes = [c for c in walk_no_nested(w) if isinstance(c, ast.Call) and isinstance(c.func, ast.Attribute) and c.func.attr == 'remove']
-    ctx.floor(rule, 'pruning calls', len(removes), 1)
-    okr = dirs is not None and all(norm_src(c.func.value) == dirs for c in removes)
-    ctx.ob(rule, f'{WM}:WcMatch._walk/remove-on-walk-list', okr, repo.loc(WM, w), f'{dirs}.remove(name)', '; '.join(norm_src(c) for c in removes),
-           witness="WcMatch('.', '*', 'skip', RECURSIVE) must not return files below skip/")
-    inner = [n for n in walk_no_nested(w) if isinstance(n, ast.For) and any(c in list(ast.walk(n)) for c in removes)]
-    okc = bool(inner) and norm_src(inner[0].iter) in (f'{dirs}[:]', f'list({dirs})', f'{dirs}.copy()')
-    ctx.ob(rule, f'{WM}:WcMatch._walk/iterates-copy', okc, repo.loc(WM, inner[0] if inner else w), f'for name in {dirs}[:]',
-           norm_src(inner[0].iter) if inner else 'none', witness='removing from the list being iterated skips every other directory')
-    rebinds = [s for s in walk_no_nested(w) if isinstance(s, (ast.Assign, ast.AugAssign)) and
-               any(norm_src(t) == dirs for t in (s.targets if isinstance(s, ast.Assign) else [s.target]))]
-    ctx.ob(rule, f'{WM}:WcMatch._walk/dirs-never-rebound', not rebinds, repo.loc(WM, w), f'`{dirs}` is never assigned', str([norm_src(r) for r in rebinds]),
-           witness='`dirs = [d for d in dirs if …]` prunes nothing: os.walk keeps its own list')
-    # removal happens exactly when the folder is not valid (or the check raised)
-    q = fq(wk)
-    for i, c in enumerate(removes, 1):
-        g = q.guards(c)
-        ok = ('self._valid_folder(base, name)', 'F') in g or q.in_handler(c, {'Exception'})
-        ctx.ob(rule, f'{WM}:WcMatch._walk/remove-condition@{i}', ok, repo.loc(WM, c), 'removed iff not _valid_folder (or the check raised)', str(sorted(g))[:120])
+    site = repo.loc(WM, wk.node)
+    rows = walk_rows(repo)
+    bad_w, bad_l, bad_c, bad_k = [], [], [], []
+    n_dir = 0
+    for p in rows:
+        focus(p)
+        ws = p.calls_to('os.walk')
+        if len(ws) != 1:
+            bad_w.append(f'{len(ws)} os.walk calls')
+            continue
+        if [_tag(a) for a in ws[0][1]] != ['self._root_dir'] or {k: _tag(v) for k, v in ws[0][2].items()} != {'followlinks': 'self.follow_links'}:
+            bad_w.append(f'os.walk({[_tag(a) for a in ws[0][1]]}, {({k: _tag(v) for k, v in ws[0][2].items()})})')
+        W = 'os.walk(' + ', '.join([_tag(a) for a in ws[0][1]] + [f'{k}={_tag(v)}' for k, v in ws[0][2].items()]) + ')'
+        E = f'elem({W})'
+        copies = (f'for:{E}[1][:]', f'for:list({E}[1])', f'for:{E}[1].copy()')
+        removes = [e for e in p.of('call') if e[1].endswith('.remove')]
+        in_dirs = [e for e in p.events if e[0] in ('call', 'except') and isinstance(e[-1], tuple) and len(e[-1]) == 2 and e[-1][1].startswith(f'for:') and f'{E}[1]' in e[-1][1]]
+        if not in_dirs:
+            continue
+        n_dir += 1
+        for e in removes:
+            if e[1] != f'{E}[1].remove':
+                bad_l.append(f'removes from {e[1][:70]}')
+            if len(e[5]) != 2 or e[5][1] not in copies:
+                bad_k.append(f'removal while iterating {e[5][1][4:70] if len(e[5]) == 2 else e[5]}')
+            elif [_tag(a) for a in e[2]] != [f'elem({e[5][1][4:]})']:
+                bad_l.append(f'removes {[_tag(a)[:50] for a in e[2]]}')
+        vf = [v for k, v in p.decisions.items() if k.startswith(f'{WM}:WcMatch._valid_folder({E}[0], elem(')]
+        exc = any(e[0] == 'except' and len(e[-1]) == 2 and f'{E}[1]' in e[-1][1] for e in p.events)
+        want = exc or vf == [False]
+        if (len(removes) == 1) != want or len(removes) > 1 or (not exc and len(vf) != 1):
+            bad_c.append(f'valid_folder={vf} raised={exc}: {len(removes)} removal(s)')
+    if n_dir < 3:
+        raise AnalysisError(f'_walk: only {n_dir} rows enter the directory loop')
+    ctx.ob(rule, f'{WM}:WcMatch._walk/followlinks', not bad_w, site, 'os.walk(self._root_dir, followlinks=self.follow_links), top-down', 'as expected' if not bad_w else bad_w[0],
+           witness='WcMatch without SYMLINKS must terminate on a symlink cycle; pruning needs top-down')
+    ctx.ob(rule, f'{WM}:WcMatch._walk/remove-on-walk-list', not bad_l, site, 'the name being examined is removed from the list yielded by os.walk itself',
+           'as expected' if not bad_l else bad_l[0], witness="WcMatch('.', '*', 'skip', RECURSIVE) must not return files below skip/; a rebound list prunes nothing")
+    ctx.ob(rule, f'{WM}:WcMatch._walk/iterates-copy', not bad_k, site, 'the loop runs over a copy (dirs[:], list(dirs), dirs.copy()) of the list it prunes',
+           'as expected' if not bad_k else bad_k[0], witness='removing from the list being iterated skips every other directory')
+    ctx.ob(rule, f'{WM}:WcMatch._walk/remove-condition', not bad_c, site, 'removed iff not _valid_folder(base, name), or the check raised', f'{n_dir} rows agree' if not bad_c else sorted(set(bad_c))[0])
 
 
-# ================================================================================================ C15
 def rule_abort_polls(ctx: Ctx, rule: str) -> None:
     ctx.text(rule, 'every cycle of the CFG of WcMatch._walk (with yield nodes and exceptional edges) contains a node that tests '
                    'self.is_aborted() and whose true edge leaves that cycle: removing those polls leaves no natural loop able '
@@ -410,43 +466,50 @@ def rule_run_prologue(ctx: Ctx, rule: str) -> None:
 
 
 def rule_yield_passthrough(ctx: Ctx, rule: str) -> None:
-    ctx.text(rule, 'the operand of every yield in _walk is the direct result of self.on_match(base, name), or a variable whose '
-                   'only reaching definition is the direct result of self.on_error(...) / self.on_skip(...) under `is not None`')
+    ctx.text(rule, 'WcMatch._walk (decision table, handlers explored): everything yielded is the direct result of on_match(base, name), '
+                   'or of on_error / on_skip(base, name) on a path that found it not None; per file exactly one of on_match / on_skip is '
+                   'called: on_match iff _valid_file held and did not raise, otherwise _skipped is incremented and on_skip called')
+    from ..symeval import focus, _tag
     repo = ctx.repo
     wk = repo.func(WM, 'WcMatch._walk')
-    q = fq(wk)
-    ys = [n for n in walk_no_nested(wk.node) if isinstance(n, ast.Yield)]
-    ctx.floor(rule, 'yield sites of _walk', len(ys), 4)
-    for i, y in enumerate(ys, 1):
-        v = y.value
-        if isinstance(v, ast.Call):
-            ok = norm_src(v) == 'self.on_match(base, name)'
-            ctx.ob(rule, f'{WM}:WcMatch._walk/yield@{i}', ok, repo.loc(WM, y), 'yield self.on_match(base, name)', norm_src(y))
+    site = repo.loc(WM, wk.node)
+    bad_y, bad_h = [], []
+    n_file = 0
+    for p in walk_rows(repo):
+        focus(p)
+        ws = p.calls_to('os.walk')
+        if len(ws) != 1:
             continue
-        if isinstance(v, ast.Name):
-            g = q.guards(y)
-            guarded = (f'{v.id} is not None', 'T') in g
-            # nearest preceding definition in the same block
-            from .common import enclosing_map
-            par = enclosing_map(wk.node)
-            st = par.get(id(par.get(id(y))))  # Expr -> enclosing If
-            blk = par.get(id(st))
-            body = None
-            for fld in ('body', 'orelse', 'handlers'):
-                seq = getattr(blk, fld, None)
-                if isinstance(seq, list) and st in seq:
-                    body = seq
-            d = None
-            if body is not None:
-                idx = body.index(st)
-                for prev in reversed(body[:idx]):
-                    if isinstance(prev, ast.Assign) and any(isinstance(t, ast.Name) and t.id == v.id for t in prev.targets):
-                        d = prev
-                        break
-            okd = d is not None and norm_src(d.value) in ('self.on_error(base, name)', 'self.on_skip(base, name)')
-            ctx.ob(rule, f'{WM}:WcMatch._walk/yield@{i}', guarded and okd, repo.loc(WM, y),
-                   'value = self.on_error/on_skip(base, name); if value is not None: yield value',
-                   f'definition={norm_src(d) if d is not None else None}, guarded={guarded}',
-                   witness='values returned by the hooks must be passed through unchanged')
-        else:
-            ctx.ob(rule, f'{WM}:WcMatch._walk/yield@{i}', False, repo.loc(WM, y), 'hook result', norm_src(y))
+        W = 'os.walk(' + ', '.join([_tag(a) for a in ws[0][1]] + [f'{k}={_tag(v)}' for k, v in ws[0][2].items()]) + ')'
+        E = f'elem({W})'
+        for e in p.of('yield'):
+            t = _tag(e[1])
+            ok = False
+            for hook in ('on_match', 'on_skip', 'on_error'):
+                pre = f'{WM}:WcMatch.{hook}({E}[0], elem('
+                if t.startswith(pre) and t.endswith('))') and len(e[3]) == 2 and t[len(pre) - 5:-1] == f'elem({e[3][1][4:]})':
+                    ok = hook == 'on_match' or p.decisions.get(f'{t} is not None') is True
+            if not ok:
+                bad_y.append(f'yields {t[:100]}')
+        in_files = [e for e in p.events if e[0] in ('call', 'except') and isinstance(e[-1], tuple) and len(e[-1]) == 2 and e[-1][1] == f'for:{E}[2]']
+        if not in_files:
+            continue
+        n_file += 1
+        exc = any(e[0] == 'except' for e in in_files)
+        vf = [v for k, v in p.decisions.items() if k.startswith(f'{WM}:WcMatch._valid_file({E}[0], elem({E}[2]))')]
+        valid = (not exc) and vf == [True]
+        hooks = {h: [e for e in in_files if e[0] == 'call' and e[1] == f'{WM}:WcMatch.{h}'] for h in ('on_match', 'on_skip', 'on_error')}
+        skipped = [e for e in p.of('store') if e[1] == 'self._skipped' and len(e[4]) == 2]
+        if len(hooks['on_match']) != (1 if valid else 0) or len(hooks['on_skip']) != (0 if valid else 1) or len(hooks['on_error']) != (1 if exc else 0) or \
+                len(skipped) != (0 if valid else 1) or (not exc and len(vf) != 1):
+            bad_h.append(f'valid_file={vf} raised={exc}: on_match×{len(hooks["on_match"])} on_skip×{len(hooks["on_skip"])} on_error×{len(hooks["on_error"])} skipped+{len(skipped)}')
+        for h, es in hooks.items():
+            for e in es:
+                if [_tag(a) for a in e[2]] != [f'{E}[0]', f'elem({E}[2])']:
+                    bad_h.append(f'{h}({[_tag(a)[:40] for a in e[2]]})')
+    if n_file < 4:
+        raise AnalysisError(f'_walk: only {n_file} rows enter the file loop')
+    ctx.ob(rule, f'{WM}:WcMatch._walk/yield-values', not bad_y, site, 'yield on_match(base, name) | non-None result of on_error / on_skip(base, name)',
+           'as expected' if not bad_y else sorted(set(bad_y))[0], witness='values returned by the hooks must be passed through unchanged')
+    ctx.ob(rule, f'{WM}:WcMatch._walk/one-hook-per-file', not bad_h, site, 'per file: on_match iff valid, else _skipped += 1 and on_skip; on_error exactly when the check raised',
+           f'{n_file} rows agree' if not bad_h else sorted(set(bad_h))[0], witness='get_skipped() + len(matches) == number of files seen')
